@@ -13,6 +13,7 @@ From LCP Require Import Base.CheckedMem Events.EventsTrace Events.EventsSpec Eve
   Events.EventsLemmas Events.EventsNetInv Events.EventsSpecProofs.
 Import ListNotations.
 Local Open Scope res_scope.
+Unset Lia Cache.
 
 Definition live_rid (c : c4) (r : nat) (k : kind) : Prop :=
   exists g, In g (c_live c) /\ g_rid g = r /\ g_kind g = k.
@@ -88,4 +89,534 @@ Proof.
   intros Hn Hg. destruct (find_reg (g_rid g) l) as [g'|] eqn:E.
   - apply find_reg_some in E. destruct E as [A B]. f_equal. eapply nodup_rid_eq; eauto.
   - exfalso. eapply find_reg_none; eauto.
+Qed.
+
+(* ---------------------------------------------------------------- basic consequences *)
+Lemma sim_rid_lt s c r k : Sim s c -> live_rid c r k -> r < next_rid (s_cl s).
+Proof.
+  intros HS [g [A [B C]]]. subst r. apply (sm_fresh s c HS). apply (sm_used s c HS). exact A.
+Qed.
+
+Lemma sim_in_lt s c g : Sim s c -> In g (c_live c) -> g_rid g < next_rid (s_cl s).
+Proof. intros HS Hg. apply (sm_fresh s c HS). apply (sm_used s c HS). exact Hg. Qed.
+
+Lemma sim_next_unused s c : Sim s c -> EventsSpec.mem_nat (next_rid (s_cl s)) (c_used c) = false.
+Proof.
+  intros HS. destruct (EventsSpec.mem_nat (next_rid (s_cl s)) (c_used c)) eqn:E; [|reflexivity].
+  apply mem_nat_true in E. apply (sm_fresh s c HS) in E. lia.
+Qed.
+
+Lemma live_rid_cons c c' g0 r k :
+  c_live c' = g0 :: c_live c -> live_rid c r k -> live_rid c' r k.
+Proof. intros E [g [A B]]. exists g. rewrite E. split; [right; exact A | exact B]. Qed.
+
+Lemma live_rid_remove c c' r x k :
+  c_live c' = remove_reg r (c_live c) -> x <> r -> live_rid c x k -> live_rid c' x k.
+Proof.
+  intros E Hne [g [A [B C]]]. exists g. rewrite E. split; [|auto].
+  apply in_remove_reg. split; [exact A | congruence].
+Qed.
+
+Lemma model_mem_nat r l : EventsModel.mem_nat r l = true <-> In r l.
+Proof.
+  unfold EventsModel.mem_nat. rewrite existsb_exists. split.
+  - intros [x [H1 H2]]. apply Nat.eqb_eq in H2. subst. exact H1.
+  - intros H. exists r. split; [exact H | apply Nat.eqb_refl].
+Qed.
+
+Lemma in_remove_nat r l x : In x (remove_nat r l) <-> In x l /\ x <> r.
+Proof.
+  unfold remove_nat. rewrite filter_In, negb_true_iff, Nat.eqb_neq. tauto.
+Qed.
+
+(* ---------------------------------------------------------------- the generic "a fresh
+   registration was added" step.  The caller supplies what happened to the one subsystem that
+   received the record; everything else is framed here. *)
+Section AddFresh.
+  Variables (s s' : st) (c : c4) (k0 : kind) (due0 : N).
+  Hypothesis HS : Sim s c.
+  Let r0 := next_rid (s_cl s).
+  Let g0 := {| g_rid := r0; g_kind := k0; g_ready := false; g_due := due0 |}.
+  Let c' := {| c_live := g0 :: c_live c; c_used := r0 :: c_used c; c_lastpoll := c_lastpoll c;
+               c_clock := c_clock c |}.
+  Variable var : option (nat * hkind).
+  Hypothesis Hcl : s_cl s' =
+    cl_with (s_cl s)
+      (match var with Some (v, hk) => (v, {| h_rid := r0; h_kind := hk |}) :: vars (s_cl s) | None => vars (s_cl s) end)
+      (r0 :: cl_live (s_cl s)) (S r0).
+  Hypothesis Hvarkind : forall v p, var = Some (v, HImm p) -> k0 = KImm p.
+  Hypothesis Henv : s_env s' = s_env s.
+
+  Lemma add_not_in g : In g (c_live c) -> g_rid g <> r0.
+  Proof. intros Hg E. pose proof (sim_in_lt s c g HS Hg). unfold r0 in *. lia. Qed.
+
+  Lemma add_live_rid r k : live_rid c r k -> live_rid c' r k.
+  Proof. apply (live_rid_cons c c' g0). reflexivity. Qed.
+
+  Lemma add_in_inv g : In g (c_live c') -> g = g0 \/ In g (c_live c).
+  Proof. simpl. intros [H|H]; auto. Qed.
+
+  (* clauses that do not depend on which subsystem was touched *)
+  Lemma add_common :
+    NoDup (map g_rid (c_live c')) /\
+    (forall g, In g (c_live c') -> In (g_rid g) (c_used c')) /\
+    (forall r, In r (c_used c') -> r < next_rid (s_cl s')) /\
+    (forall r, In r (cl_live (s_cl s')) <-> exists g, In g (c_live c') /\ g_rid g = r) /\
+    (forall v r p, get_var v (vars (s_cl s')) = Some {| h_rid := r; h_kind := HImm p |} ->
+        forall g, In g (c_live c') -> g_rid g = r -> g_kind g = KImm p) /\
+    (forall v h, get_var v (vars (s_cl s')) = Some h -> h_rid h < next_rid (s_cl s')) /\
+    (Forall (fun t => tv_norm t = true) (clocks (s_env s')) /\ tv_norm (lastclock (s_env s')) = true).
+  Proof.
+    rewrite Hcl, Henv. simpl.
+    refine (conj _ (conj _ (conj _ (conj _ (conj _ (conj _ _)))))).
+    - constructor; [|apply (sm_nodup s c HS)]. intros X. apply in_map_iff in X.
+      destruct X as [g [E Hg]]. exact (add_not_in g Hg E).
+    - intros g [<- | Hg]; [left; reflexivity | right; apply (sm_used s c HS); exact Hg].
+    - intros r [<- | Hr]; [lia|]. pose proof (sm_fresh s c HS r Hr). unfold r0. lia.
+    - intros r. split.
+      + intros [<- | Hr].
+        * exists g0. split; [left; reflexivity | reflexivity].
+        * apply (sm_cl s c HS) in Hr. destruct Hr as [g [A B]]. exists g. split; [right; exact A | exact B].
+      + intros [g [[<- | Hg] E]]; [left; exact E | right]. apply (sm_cl s c HS). exists g. auto.
+    - intros v r p Hv g Hg Er.
+      assert (Hold : get_var v (vars (s_cl s)) = Some {| h_rid := r; h_kind := HImm p |} -> g_kind g = KImm p).
+      { intros Hv0. destruct Hg as [<- | Hg].
+        - exfalso. simpl in Er. pose proof (sm_vars_fresh s c HS v _ Hv0) as X. simpl in X. unfold r0 in *. lia.
+        - eapply (sm_vars s c HS); eauto. }
+      destruct var as [[v0 hk]|]; [|auto]. simpl in Hv. destruct (Nat.eqb v0 v) eqn:Ev; [|auto].
+      inversion Hv as [[Hr0 Hhk]]. rewrite <- Hr0 in Er. destruct Hg as [<- | Hg].
+      + simpl. eapply Hvarkind. rewrite Hhk. reflexivity.
+      + exfalso. exact (add_not_in g Hg Er).
+    - intros v h Hv.
+      assert (Hold : get_var v (vars (s_cl s)) = Some h -> h_rid h < S r0).
+      { intros Hv0. pose proof (sm_vars_fresh s c HS v h Hv0). unfold r0. lia. }
+      destruct var as [[v0 hk]|]; [|auto]. simpl in Hv. destruct (Nat.eqb v0 v); [|auto].
+      inversion Hv; subst h. simpl. lia.
+    - apply (sm_env s c HS).
+  Qed.
+
+  (* frames: a subsystem that was not touched *)
+  Lemma add_frame_imm :
+    s_imm s' = s_imm s ->
+    (forall p q r, nth_error (heads (s_imm s')) p = Some q -> In r q -> live_rid c' (r_rid r) (KImm p)) /\
+    (forall p q, nth_error (heads (s_imm s')) p = Some q -> NoDup (map r_rid q)).
+  Proof.
+    intros E. rewrite E. split.
+    - intros p q r Hq Hr. apply add_live_rid. eapply (sm_imm s c HS); eauto.
+    - apply (sm_imm_nodup s c HS).
+  Qed.
+
+  Lemma add_frame_tmr :
+    s_tmr s' = s_tmr s ->
+    (forall x, In x (heap (s_tmr s')) ->
+      exists g, In g (c_live c') /\ g_rid g = r_rid (t_rec x) /\ g_kind g = KTimer (t_orig x) /\
+                g_due g = us (t_deadline x) /\ tv_norm (t_deadline x) = true /\ tv_norm (t_orig x) = true) /\
+    NoDup (map (fun x => r_rid (t_rec x)) (heap (s_tmr s'))).
+  Proof.
+    intros E. rewrite E. split; [|apply (sm_tmr_nodup s c HS)].
+    intros x Hx. destruct (sm_tmr s c HS x Hx) as [g [A B]]. exists g. split; [right; exact A | exact B].
+  Qed.
+
+  Lemma add_frame_net :
+    s_net s' = s_net s -> is_net k0 = false ->
+    NetInv (s_net s') /\
+    (forall fd dir rc, field (s_net s') fd dir = Some rc -> live_rid c' (r_rid rc) (KNet fd dir)) /\
+    (forall g fd dir, In g (c_live c') -> g_kind g = KNet fd dir ->
+        exists rc, field (s_net s') fd dir = Some rc /\ r_rid rc = g_rid g) /\
+    (forall fd dir rc g, rb_dir (rev_at (s_net s') fd) dir = true ->
+        field (s_net s') fd dir = Some rc -> In g (c_live c') -> g_rid g = r_rid rc ->
+        g_ready g = true \/ errhup_for fd (c_lastpoll c') = true) /\
+    (forall fd, rb_errhup (rev_at (s_net s') fd) = true -> errhup_for fd (c_lastpoll c') = true).
+  Proof.
+    intros E Hk0. rewrite E. split; [apply (sm_net s c HS)|]. split; [|split; [|split]].
+    - intros fd dir rc Hf. apply add_live_rid. eapply (sm_net1 s c HS); eauto.
+    - intros g fd dir [<- | Hg] Hk.
+      + simpl in Hk. subst k0. discriminate.
+      + eapply (sm_net2 s c HS); eauto.
+    - intros fd dir rc g Hr Hf [<- | Hg] Er.
+      + exfalso. simpl in Er. pose proof (sim_rid_lt s c _ _ HS (sm_net1 s c HS fd dir rc Hf)). unfold r0 in *. lia.
+      + eapply (sm_net3 s c HS); eauto.
+    - apply (sm_net4 s c HS).
+  Qed.
+End AddFresh.
+
+(* ---------------------------------------------------------------- the generic "registration r
+   is gone" step (cancelled, or its callback is being entered) *)
+Section RemoveLive.
+  Variables (s s' : st) (c : c4) (r : nat) (kr : kind).
+  Hypothesis HS : Sim s c.
+  Hypothesis Hr : live_rid c r kr.
+  Let c' := {| c_live := remove_reg r (c_live c); c_used := c_used c; c_lastpoll := c_lastpoll c;
+               c_clock := c_clock c |}.
+  Hypothesis Hvars : vars (s_cl s') = vars (s_cl s).
+  Hypothesis Hlive : cl_live (s_cl s') = remove_nat r (cl_live (s_cl s)).
+  Hypothesis Hnext : next_rid (s_cl s') = next_rid (s_cl s).
+  Hypothesis Henv : s_env s' = s_env s.
+
+  Lemma rm_live_rid x k : x <> r -> live_rid c x k -> live_rid c' x k.
+  Proof. apply (live_rid_remove c c' r). reflexivity. Qed.
+
+  Lemma rm_in g : In g (c_live c') -> In g (c_live c) /\ g_rid g <> r.
+  Proof. simpl. apply in_remove_reg. Qed.
+
+  (* an element of another kind is not r *)
+  Lemma rm_other_kind x k : live_rid c x k -> k <> kr -> x <> r.
+  Proof.
+    intros Hx Hk E. subst x. apply Hk. eapply live_rid_kind_unique; eauto. apply (sm_nodup s c HS).
+  Qed.
+
+  Lemma rm_common :
+    NoDup (map g_rid (c_live c')) /\
+    (forall g, In g (c_live c') -> In (g_rid g) (c_used c')) /\
+    (forall x, In x (c_used c') -> x < next_rid (s_cl s')) /\
+    (forall x, In x (cl_live (s_cl s')) <-> exists g, In g (c_live c') /\ g_rid g = x) /\
+    (forall v x p, get_var v (vars (s_cl s')) = Some {| h_rid := x; h_kind := HImm p |} ->
+        forall g, In g (c_live c') -> g_rid g = x -> g_kind g = KImm p) /\
+    (forall v h, get_var v (vars (s_cl s')) = Some h -> h_rid h < next_rid (s_cl s')) /\
+    (Forall (fun t => tv_norm t = true) (clocks (s_env s')) /\ tv_norm (lastclock (s_env s')) = true).
+  Proof.
+    rewrite Hvars, Hlive, Hnext, Henv.
+    refine (conj _ (conj _ (conj _ (conj _ (conj _ (conj _ _)))))).
+    - simpl. apply nodup_map_filter. apply (sm_nodup s c HS).
+    - intros g Hg. apply rm_in in Hg. apply (sm_used s c HS). tauto.
+    - apply (sm_fresh s c HS).
+    - intros x. rewrite in_remove_nat. split.
+      + intros [Hx Hne]. apply (sm_cl s c HS) in Hx. destruct Hx as [g [A B]]. exists g. split; [|exact B].
+        simpl. apply in_remove_reg. split; [exact A | congruence].
+      + intros [g [Hg E]]. apply rm_in in Hg. destruct Hg as [A B]. split; [|congruence].
+        apply (sm_cl s c HS). exists g. auto.
+    - intros v x p Hv g Hg Ex. apply rm_in in Hg. eapply (sm_vars s c HS); eauto. tauto.
+    - apply (sm_vars_fresh s c HS).
+    - apply (sm_env s c HS).
+  Qed.
+
+  Lemma rm_frame_imm :
+    s_imm s' = s_imm s -> is_imm kr = false ->
+    (forall p q x, nth_error (heads (s_imm s')) p = Some q -> In x q -> live_rid c' (r_rid x) (KImm p)) /\
+    (forall p q, nth_error (heads (s_imm s')) p = Some q -> NoDup (map r_rid q)).
+  Proof.
+    intros E Hk. rewrite E. split; [|apply (sm_imm_nodup s c HS)].
+    intros p q x Hq Hx. pose proof (sm_imm s c HS p q x Hq Hx) as L. apply rm_live_rid; [|exact L].
+    eapply rm_other_kind; [exact L|]. intros X. rewrite <- X in Hk. discriminate.
+  Qed.
+
+  Lemma rm_frame_tmr :
+    s_tmr s' = s_tmr s -> is_timer kr = false ->
+    (forall x, In x (heap (s_tmr s')) ->
+      exists g, In g (c_live c') /\ g_rid g = r_rid (t_rec x) /\ g_kind g = KTimer (t_orig x) /\
+                g_due g = us (t_deadline x) /\ tv_norm (t_deadline x) = true /\ tv_norm (t_orig x) = true) /\
+    NoDup (map (fun x => r_rid (t_rec x)) (heap (s_tmr s'))).
+  Proof.
+    intros E Hk. rewrite E. split; [|apply (sm_tmr_nodup s c HS)].
+    intros x Hx. destruct (sm_tmr s c HS x Hx) as [g [A [B [C D]]]]. exists g. split; [|auto].
+    simpl. apply in_remove_reg. split; [exact A|]. rewrite B.
+    apply (rm_other_kind _ (KTimer (t_orig x))).
+    - exists g. auto.
+    - intros X. rewrite <- X in Hk. discriminate.
+  Qed.
+
+  Lemma rm_frame_net :
+    s_net s' = s_net s -> is_net kr = false ->
+    NetInv (s_net s') /\
+    (forall fd dir rc, field (s_net s') fd dir = Some rc -> live_rid c' (r_rid rc) (KNet fd dir)) /\
+    (forall g fd dir, In g (c_live c') -> g_kind g = KNet fd dir ->
+        exists rc, field (s_net s') fd dir = Some rc /\ r_rid rc = g_rid g) /\
+    (forall fd dir rc g, rb_dir (rev_at (s_net s') fd) dir = true ->
+        field (s_net s') fd dir = Some rc -> In g (c_live c') -> g_rid g = r_rid rc ->
+        g_ready g = true \/ errhup_for fd (c_lastpoll c') = true) /\
+    (forall fd, rb_errhup (rev_at (s_net s') fd) = true -> errhup_for fd (c_lastpoll c') = true).
+  Proof.
+    intros E Hk. rewrite E. split; [apply (sm_net s c HS)|]. split; [|split; [|split]].
+    - intros fd dir rc Hf. pose proof (sm_net1 s c HS fd dir rc Hf) as L. apply rm_live_rid; [|exact L].
+      eapply rm_other_kind; [exact L|]. intros X. rewrite <- X in Hk. discriminate.
+    - intros g fd dir Hg Hkd. apply rm_in in Hg. eapply (sm_net2 s c HS); eauto. tauto.
+    - intros fd dir rc g Hrv Hf Hg Er. apply rm_in in Hg. eapply (sm_net3 s c HS); eauto. tauto.
+    - apply (sm_net4 s c HS).
+  Qed.
+End RemoveLive.
+
+(* ---------------------------------------------------------------- time arithmetic *)
+Lemma us_add_timeout now t : us (add_timeout now t) = (us now + us t)%N.
+Proof.
+  destruct now as [s1 u1], t as [s2 u2].
+  unfold add_timeout, us. change Gen.Repo_events.tmr_usec_per_sec with 1000000%N.
+  change Gen.Repo_events.tmr_carry with 1%N. cbn [fst snd].
+  destruct (1000000 <=? u1 + u2)%N eqn:E; cbn [fst snd].
+  - apply N.leb_le in E. lia.
+  - lia.
+Qed.
+
+Lemma norm_add_timeout now t :
+  tv_norm now = true -> tv_norm t = true -> tv_norm (add_timeout now t) = true.
+Proof.
+  destruct now as [s1 u1], t as [s2 u2].
+  unfold tv_norm, add_timeout. change Gen.Repo_events.tmr_usec_per_sec with 1000000%N. cbn [fst snd].
+  intros A B. apply N.ltb_lt in A. apply N.ltb_lt in B.
+  destruct (1000000 <=? u1 + u2)%N eqn:E; cbn [fst snd]; apply N.ltb_lt.
+  - apply N.leb_le in E. lia.
+  - apply N.leb_gt in E. exact E.
+Qed.
+
+Lemma tv_cmp_not_gt_us a b : tv_norm a = true -> tv_cmp a b <> Gt -> (us a <= us b)%N.
+Proof.
+  destruct a as [s1 u1], b as [s2 u2].
+  unfold tv_norm, tv_cmp, us. cbn [fst snd]. intros A H. apply N.ltb_lt in A.
+  destruct (N.compare s1 s2) eqn:C1.
+  - apply N.compare_eq in C1. subst s2.
+    destruct (N.compare u1 u2) eqn:C2; try congruence.
+    + apply N.compare_eq in C2. subst u2. apply N.le_refl.
+    + assert (u1 < u2)%N by (apply N.compare_lt_iff; exact C2). lia.
+  - assert (s1 < s2)%N by (apply N.compare_lt_iff; exact C1). lia.
+  - congruence.
+Qed.
+
+(* ---------------------------------------------------------------- states that differ only in
+   components the relation does not mention *)
+Lemma Sim_congr s c s' c' :
+  Sim s c ->
+  s_cl s' = s_cl s -> s_imm s' = s_imm s -> s_net s' = s_net s -> s_tmr s' = s_tmr s ->
+  s_env s' = s_env s ->
+  c_live c' = c_live c -> c_used c' = c_used c -> c_lastpoll c' = c_lastpoll c ->
+  Sim s' c'.
+Proof.
+  intros HS E1 E2 E3 E4 E5 F1 F2 F3. destruct HS.
+  constructor; unfold live_rid in *; rewrite ?E1, ?E2, ?E3, ?E4, ?E5, ?F1, ?F2, ?F3; auto.
+Qed.
+
+Lemma Good_neutral s e :
+  Good s -> neutral e -> Good (emit e s).
+Proof.
+  intros [c [Hc HS]] Hn.
+  assert (Hstep : cstep4 c e = Some c).
+  { destruct e; simpl in Hn; try tauto; try reflexivity. destruct e; try reflexivity. congruence. }
+  eapply Good_emit; eauto. eapply Sim_congr; eauto.
+Qed.
+
+(* reading the clock *)
+Lemma read_clock_good s now s1 :
+  Good s -> read_clock s = (now, s1) ->
+  tv_norm now = true /\
+  s_cl s1 = s_cl s /\ s_imm s1 = s_imm s /\ s_net s1 = s_net s /\ s_tmr s1 = s_tmr s /\ s_intr s1 = s_intr s /\
+  exists c, csteps4 c4_init (rev (s_tr s)) = Some c /\ Sim s c /\
+    csteps4 c4_init (rev (s_tr s1)) =
+      Some {| c_live := c_live c; c_used := c_used c; c_lastpoll := c_lastpoll c; c_clock := Some now |} /\
+    Sim s1 {| c_live := c_live c; c_used := c_used c; c_lastpoll := c_lastpoll c; c_clock := Some now |}.
+Proof.
+  intros [c [Hc HS]] H. unfold read_clock in H.
+  destruct (sm_env s c HS) as [Hcl Hlast].
+  destruct (clocks (s_env s)) as [|x r] eqn:Ec.
+  - inversion H; subst now s1. split; [exact Hlast|]. repeat split; try reflexivity.
+    exists c. split; [exact Hc|]. split; [exact HS|]. split.
+    + simpl. rewrite csteps4_app, Hc. reflexivity.
+    + eapply Sim_congr; eauto.
+  - inversion H; subst now s1. inversion Hcl; subst. split; [assumption|]. repeat split; try reflexivity.
+    exists c. split; [exact Hc|]. split; [exact HS|]. split.
+    + simpl. rewrite csteps4_app, Hc. reflexivity.
+    + destruct HS. constructor; simpl; auto.
+Qed.
+
+(* assembling the relation from the parts the generic lemmas produce *)
+Lemma Sim_build s c :
+  (NoDup (map g_rid (c_live c)) /\
+   (forall g, In g (c_live c) -> In (g_rid g) (c_used c)) /\
+   (forall r, In r (c_used c) -> r < next_rid (s_cl s)) /\
+   (forall r, In r (cl_live (s_cl s)) <-> exists g, In g (c_live c) /\ g_rid g = r) /\
+   (forall v r p, get_var v (vars (s_cl s)) = Some {| h_rid := r; h_kind := HImm p |} ->
+       forall g, In g (c_live c) -> g_rid g = r -> g_kind g = KImm p) /\
+   (forall v h, get_var v (vars (s_cl s)) = Some h -> h_rid h < next_rid (s_cl s)) /\
+   (Forall (fun t => tv_norm t = true) (clocks (s_env s)) /\ tv_norm (lastclock (s_env s)) = true)) ->
+  ((forall p q r, nth_error (heads (s_imm s)) p = Some q -> In r q -> live_rid c (r_rid r) (KImm p)) /\
+   (forall p q, nth_error (heads (s_imm s)) p = Some q -> NoDup (map r_rid q))) ->
+  (NetInv (s_net s) /\
+   (forall fd dir rc, field (s_net s) fd dir = Some rc -> live_rid c (r_rid rc) (KNet fd dir)) /\
+   (forall g fd dir, In g (c_live c) -> g_kind g = KNet fd dir ->
+       exists rc, field (s_net s) fd dir = Some rc /\ r_rid rc = g_rid g) /\
+   (forall fd dir rc g, rb_dir (rev_at (s_net s) fd) dir = true ->
+       field (s_net s) fd dir = Some rc -> In g (c_live c) -> g_rid g = r_rid rc ->
+       g_ready g = true \/ errhup_for fd (c_lastpoll c) = true) /\
+   (forall fd, rb_errhup (rev_at (s_net s) fd) = true -> errhup_for fd (c_lastpoll c) = true)) ->
+  ((forall x, In x (heap (s_tmr s)) ->
+      exists g, In g (c_live c) /\ g_rid g = r_rid (t_rec x) /\ g_kind g = KTimer (t_orig x) /\
+                g_due g = us (t_deadline x) /\ tv_norm (t_deadline x) = true /\ tv_norm (t_orig x) = true) /\
+   NoDup (map (fun x => r_rid (t_rec x)) (heap (s_tmr s)))) ->
+  Sim s c.
+Proof.
+  intros [A1 [A2 [A3 [A4 [A5 [A6 A7]]]]]] [B1 B2] [C1 [C2 [C3 [C4 C5]]]] [D1 D2].
+  constructor; assumption.
+Qed.
+
+(* what the checker does with the events the model emits *)
+Lemma cstep4_reg_imm c r p :
+  EventsSpec.mem_nat r (c_used c) = false ->
+  cstep4 c (ERegister r (KImm p)) =
+  Some {| c_live := {| g_rid := r; g_kind := KImm p; g_ready := false; g_due := 0%N |} :: c_live c;
+          c_used := r :: c_used c; c_lastpoll := c_lastpoll c; c_clock := c_clock c |}.
+Proof. intros H. unfold cstep4. rewrite H. reflexivity. Qed.
+
+Lemma cstep4_reg_net c r fd dir :
+  EventsSpec.mem_nat r (c_used c) = false -> net_live fd dir (c_live c) = false ->
+  cstep4 c (ERegister r (KNet fd dir)) =
+  Some {| c_live := {| g_rid := r; g_kind := KNet fd dir; g_ready := false; g_due := 0%N |} :: c_live c;
+          c_used := r :: c_used c; c_lastpoll := c_lastpoll c; c_clock := c_clock c |}.
+Proof. intros H1 H2. unfold cstep4. rewrite H1, H2. reflexivity. Qed.
+
+Lemma cstep4_reg_timer c r t now :
+  EventsSpec.mem_nat r (c_used c) = false -> c_clock c = Some now ->
+  cstep4 c (ERegister r (KTimer t)) =
+  Some {| c_live := {| g_rid := r; g_kind := KTimer t; g_ready := false; g_due := (us now + us t)%N |} :: c_live c;
+          c_used := r :: c_used c; c_lastpoll := c_lastpoll c; c_clock := c_clock c |}.
+Proof. intros H1 H2. unfold cstep4. rewrite H1, H2. reflexivity. Qed.
+
+Lemma cstep4_cancel c r g :
+  find_reg r (c_live c) = Some g ->
+  cstep4 c (ECancel r) =
+  Some {| c_live := remove_reg r (c_live c); c_used := c_used c; c_lastpoll := c_lastpoll c;
+          c_clock := c_clock c |}.
+Proof. intros H. unfold cstep4. rewrite H. reflexivity. Qed.
+
+Lemma cstep4_invoke c r g :
+  find_reg r (c_live c) = Some g ->
+  (match g_kind g with
+   | KImm _ => true
+   | KNet fd dir => g_ready g || errhup_for fd (c_lastpoll c)
+   | KTimer _ => match c_clock c with Some now => (g_due g <=? us now)%N | None => false end
+   end) = true ->
+  cstep4 c (EInvoke r) =
+  Some {| c_live := remove_reg r (c_live c); c_used := c_used c; c_lastpoll := c_lastpoll c;
+          c_clock := c_clock c |}.
+Proof. intros H1 H2. unfold cstep4. rewrite H1, H2. reflexivity. Qed.
+
+(* ================================================================ immediates *)
+Lemma good_imm_reg s cb prio var s' :
+  Good s -> exec_op (OImmReg cb prio var 0) s = Ok s' -> Good s'.
+Proof.
+  intros [c [Hc HS]] H. unfold exec_op in H. cbn [Nat.eqb negb] in H.
+  destruct (imm_register cb prio (next_rid (s_cl s)) (s_imm s)) as [im| | |] eqn:Ei; cbn [bind] in H; try discriminate.
+  inversion H; subst s'. clear H.
+  unfold imm_register in Ei. destruct (prio <? PRIO_LIMIT); [|discriminate].
+  destruct (rdn (heads (s_imm s)) prio) as [q| | |] eqn:Eq; cbn [bind] in Ei; try discriminate.
+  apply rdn_ok in Eq. inversion Ei; subst im. clear Ei.
+  set (rid := next_rid (s_cl s)) in *.
+  eapply Good_emit; [exact Hc | | reflexivity |].
+  { apply cstep4_reg_imm. apply (sim_next_unused s c HS). }
+  apply Sim_build.
+  - eapply (add_common s _ c (KImm prio) 0%N HS (Some (var, HImm prio))); try reflexivity.
+    intros v p E. inversion E. reflexivity.
+  - (* the queue that received the record *)
+    simpl. split.
+    + intros p q0 r Hq0 Hr. apply nth_error_upd_nth in Hq0. destruct Hq0 as [[<- [-> _]] | [Hne Hq0]].
+      * apply in_app_or in Hr. destruct Hr as [Hr | [<- | []]].
+        -- eapply (live_rid_cons c); [reflexivity|]. eapply (sm_imm s c HS); eauto.
+        -- eexists. split; [left; reflexivity|]. split; reflexivity.
+      * eapply (live_rid_cons c); [reflexivity|]. eapply (sm_imm s c HS); eauto.
+    + intros p q0 Hq0. apply nth_error_upd_nth in Hq0. destruct Hq0 as [[<- [-> _]] | [Hne Hq0]].
+      * rewrite map_app. simpl. apply nodup_snoc; [eapply (sm_imm_nodup s c HS); eauto|].
+        intros X. apply in_map_iff in X. destruct X as [r [Er Hr]].
+        pose proof (sim_rid_lt s c _ _ HS (sm_imm s c HS prio q r Eq Hr)) as L. rewrite Er in L. unfold rid in L. lia.
+      * eapply (sm_imm_nodup s c HS); eauto.
+  - apply (add_frame_net s _ c (KImm prio) 0%N HS None); [intros v p X; discriminate X | reflexivity | reflexivity].
+  - apply (add_frame_tmr s _ c (KImm prio) 0%N HS); reflexivity.
+Qed.
+
+Lemma cl_live_find s c r :
+  Sim s c -> In r (cl_live (s_cl s)) -> exists g, In g (c_live c) /\ g_rid g = r /\ find_reg r (c_live c) = Some g.
+Proof.
+  intros HS Hr. apply (sm_cl s c HS) in Hr. destruct Hr as [g [A B]]. exists g. split; [exact A|]. split; [exact B|].
+  rewrite <- B. apply find_reg_in; [apply (sm_nodup s c HS) | exact A].
+Qed.
+
+Lemma good_imm_cancel s var s' :
+  Good s -> exec_op (OImmCancel var) s = Ok s' -> Good s'.
+Proof.
+  intros HG H. unfold exec_op in H.
+  destruct (get_var var (vars (s_cl s))) as [[r [prio|]]|] eqn:Ev; try (inversion H; subst; exact HG).
+  destruct (EventsModel.mem_nat r (cl_live (s_cl s))) eqn:Em; [|inversion H; subst; exact HG].
+  destruct HG as [c [Hc HS]].
+  apply model_mem_nat in Em.
+  destruct (cl_live_find s c r HS Em) as [g [Hg [Er Hfind]]].
+  assert (Hkind : g_kind g = KImm prio) by (eapply (sm_vars s c HS); eauto).
+  assert (Hlr : live_rid c r (KImm prio)) by (exists g; auto).
+  destruct (imm_cancel r prio (s_imm s)) as [im| | |] eqn:Ei; cbn [bind] in H; try discriminate.
+  inversion H; subst s'. clear H.
+  unfold imm_cancel in Ei.
+  destruct (rdn (heads (s_imm s)) prio) as [q| | |] eqn:Eq; cbn [bind] in Ei; try discriminate.
+  apply rdn_ok in Eq. inversion Ei; subst im. clear Ei.
+  eapply Good_emit; [exact Hc | eapply cstep4_cancel; eauto | reflexivity |].
+  apply Sim_build.
+  - apply (rm_common s _ c r HS); reflexivity.
+  - simpl. split.
+    + intros p q0 x Hq0 Hx. apply nth_error_upd_nth in Hq0. destruct Hq0 as [[<- [-> _]] | [Hne Hq0]].
+      * apply filter_In in Hx. destruct Hx as [Hx Hnr]. unfold rid_neqb in Hnr.
+        apply negb_true_iff, Nat.eqb_neq in Hnr.
+        eapply (live_rid_remove c); [reflexivity | exact Hnr |]. eapply (sm_imm s c HS); eauto.
+      * pose proof (sm_imm s c HS p q0 x Hq0 Hx) as L.
+        eapply (live_rid_remove c); [reflexivity | | exact L].
+        apply (rm_other_kind s c r (KImm prio) HS Hlr _ (KImm p) L). congruence.
+    + intros p q0 Hq0. apply nth_error_upd_nth in Hq0. destruct Hq0 as [[<- [-> _]] | [Hne Hq0]].
+      * apply nodup_map_filter. eapply (sm_imm_nodup s c HS); eauto.
+      * eapply (sm_imm_nodup s c HS); eauto.
+  - apply (rm_frame_net s _ c r (KImm prio) HS Hlr); reflexivity.
+  - apply (rm_frame_tmr s _ c r (KImm prio) HS Hlr); reflexivity.
+Qed.
+
+(* events_immediate_get followed by the entry of the callback *)
+Definition fire_cl (r : rec) (s : st) : st :=
+  let c := s_cl s in
+  set_cl s {| vars := vars c; cl_live := remove_nat (r_rid r) (cl_live c); runs := r_cb r :: runs c;
+              cl_done := cl_done c; next_rid := next_rid c |}.
+
+Lemma imm_get_some im r im' :
+  imm_get im = Ok (Some r, im') ->
+  exists m q, nth_error (heads im) m = Some (r :: q) /\ heads im' = upd_nth m q (heads im).
+Proof.
+  unfold imm_get. set (m := imm_advance (heads im) (minq im) (S ADV_LIMIT)).
+  destruct (m =? EMPTY_MARK); [discriminate|].
+  destruct (rdn (heads im) m) as [q| | |] eqn:Eq; cbn [bind]; try discriminate.
+  destruct q as [|r0 q]; [discriminate|]. intros H. inversion H; subst. apply rdn_ok in Eq.
+  exists m, q. auto.
+Qed.
+
+Lemma imm_get_none im im' : imm_get im = Ok (None, im') -> heads im' = heads im.
+Proof.
+  unfold imm_get. set (m := imm_advance (heads im) (minq im) (S ADV_LIMIT)).
+  destruct (m =? EMPTY_MARK); [intros H; inversion H; reflexivity|].
+  destruct (rdn (heads im) m) as [q| | |]; cbn [bind]; try discriminate.
+  destruct q; discriminate.
+Qed.
+
+Lemma good_imm_get_none s s1 : Good s -> imm_get_s s = Ok (None, s1) -> Good s1.
+Proof.
+  intros [c [Hc HS]] H. unfold imm_get_s in H.
+  destruct (imm_get (s_imm s)) as [[ro im]| | |] eqn:E; cbn [bind] in H; try discriminate.
+  inversion H; subst ro s1. apply imm_get_none in E.
+  exists c. split; [exact Hc|]. destruct HS. constructor; simpl; unfold live_rid in *; rewrite ?E; auto.
+Qed.
+
+Lemma good_imm_get_some s r s1 :
+  Good s -> imm_get_s s = Ok (Some r, s1) -> Good (emit (EInvoke (r_rid r)) (fire_cl r s1)).
+Proof.
+  intros [c [Hc HS]] H. unfold imm_get_s in H.
+  destruct (imm_get (s_imm s)) as [[ro im]| | |] eqn:E; cbn [bind] in H; try discriminate.
+  inversion H; subst ro s1. apply imm_get_some in E. destruct E as [m [q [Hm Hheads]]].
+  assert (Hlr : live_rid c (r_rid r) (KImm m)) by (eapply (sm_imm s c HS); [exact Hm | left; reflexivity]).
+  destruct Hlr as [g [Hg [Er Hk]]].
+  assert (Hfind : find_reg (r_rid r) (c_live c) = Some g).
+  { rewrite <- Er. apply find_reg_in; [apply (sm_nodup s c HS) | exact Hg]. }
+  assert (Hlr : live_rid c (r_rid r) (KImm m)) by (exists g; auto).
+  eapply Good_emit; [exact Hc | eapply cstep4_invoke; [exact Hfind | rewrite Hk; reflexivity] | reflexivity |].
+  pose proof (sm_imm_nodup s c HS m (r :: q) Hm) as Hnd. simpl in Hnd. inversion Hnd as [|? ? Hnotin Hndq]. subst.
+  apply Sim_build.
+  - apply (rm_common s _ c (r_rid r) HS); reflexivity.
+  - simpl. rewrite Hheads. split.
+    + intros p q0 x Hq0 Hx. apply nth_error_upd_nth in Hq0. destruct Hq0 as [[<- [-> _]] | [Hne Hq0]].
+      * eapply (live_rid_remove c); [reflexivity | | eapply (sm_imm s c HS); [exact Hm | right; exact Hx]].
+        intros E. apply Hnotin. rewrite <- E. apply in_map. exact Hx.
+      * pose proof (sm_imm s c HS p q0 x Hq0 Hx) as L.
+        eapply (live_rid_remove c); [reflexivity | | exact L].
+        apply (rm_other_kind s c (r_rid r) (KImm m) HS Hlr _ (KImm p) L). congruence.
+    + intros p q0 Hq0. apply nth_error_upd_nth in Hq0. destruct Hq0 as [[<- [-> _]] | [Hne Hq0]].
+      * exact Hndq.
+      * eapply (sm_imm_nodup s c HS); eauto.
+  - apply (rm_frame_net s _ c (r_rid r) (KImm m) HS Hlr); reflexivity.
+  - apply (rm_frame_tmr s _ c (r_rid r) (KImm m) HS Hlr); reflexivity.
 Qed.
